@@ -50,6 +50,39 @@ PROPS = {
         thorough=T(16, 50, 3000),
         assumptions=BECH32_ASSUME,
     ),
+    "C11": dict(
+        pkg="c11",
+        quick=T(8, 1, 900),
+        thorough=T(16, 40, 3400),
+        assumptions=[
+            "harness/ref/pow: own chain BLAKE2b-256 (x/crypto) -> b1t6 (ref/trit) -> scalar Curl-P-81 (ref/curl) -> trailing zeros; Score compared within 2 ulp of the exactly rounded 3^z/len",
+            "soundness of Mine is judged with the package's own Score, which the score sub-check validates against the reference",
+            "targets needing more than 243 zeros (deliberate precondition panic), NaN and infinities are not generated; targets above 3^10/len are not generated (cost)",
+            "low targets run Mine in a child process (the test binary re-executes itself); a crash of the child is the violation signal",
+        ],
+    ),
+    "C12": dict(
+        pkg="c12",
+        quick=T(8, 1, 900),
+        thorough=T(16, 40, 3400),
+        assumptions=[
+            "harness/ref/pow: difficulty floor(3^243/h) and score on math/big over the scalar Curl reference",
+            "completeness is checked for a single worker by re-hashing every nonce of every skipped 64-block with the scalar reference",
+            "the saturating branch of v2.Score (difficulty >= 2^64, >= 41 zero trits) cannot be reached by search through Score; it is covered only through the hooked toInt and the reference division",
+            "only len*target <= 2^64-1 is generated (the statement's domain)",
+        ],
+    ),
+    "C13": dict(
+        pkg="c13",
+        race=True,
+        quick=T(4, 1, 1200, shrinktime="60s"),
+        thorough=T(8, 25, 3400, shrinktime="120s"),
+        assumptions=[
+            "the Go scheduler is not under the harness's control: interleavings are sampled by varying GOMAXPROCS, worker counts and cancellation instants; the race detector reports races on executed accesses regardless of the observed order",
+            "'returns within a short bounded time' is checked as 45 s after cancellation (expected: milliseconds); exceeding it is reported with a goroutine dump, the process then exits (no shrinking)",
+            "goroutines are attributed to Mine by a pkg/pow frame in their stack",
+        ],
+    ),
     "C14": dict(
         pkg="c14",
         quick=T(2, 1, 600),
